@@ -1,6 +1,7 @@
 package main
 
 import (
+	"time"
 	"fmt"
 	"sort"
 	"strings"
@@ -278,7 +279,9 @@ func (m *Machine) assert(c *Term, id string) {
 		}
 		ob.Result = "violated"
 		ob.Cond = "false"
-		if r, mod := m.checkModel(m.pc); r == Sat {
+		if m.job != nil && !m.job.modelBudget(id) {
+			ob.Details = "further instance (model search skipped)"
+		} else if r, mod := m.checkModel(m.pc); r == Sat {
 			ob.Model = mod
 		}
 		ob.Trail = append([]int{}, m.trail[:m.tpos]...)
@@ -294,7 +297,7 @@ func (m *Machine) assert(c *Term, id string) {
 		ob.Cond = ob.Cond[:400] + "..."
 	}
 	// verdict query first (uninterpreted predicates, no witness hygiene): unsat = holds
-	r, _ := m.solver.Check(q, false)
+	r, _ := m.solver.CheckOn(1, q, false) // cvc5 first: predicates stay uninterpreted in verdict queries
 	var mod *Model
 	if r == Sat {
 		if m.job != nil && !m.job.modelBudget(id) {
@@ -362,10 +365,40 @@ func checkModelWith(solver *Solver, e *Engine, fresh map[*Term]bool, prefs map[*
 		return Sat, mod
 	}
 	// stage 2: with the definitions of the regular expressions
-	return checkModelStage(solver, e, fresh, prefs, q, true)
+	r, mod := checkModelStage(solver, e, fresh, prefs, q, true)
+	// uninterpreted stand-ins of pure library functions: make the model agree with the native
+	// function at the points it uses (counterexample-guided refinement, bounded)
+	seen := map[*Term]bool{}
+	lemmas := []*Term{}
+	t0 := time.Now()
+	for round := 0; round < 8 && r == Sat && mod != nil && !modelValid(mod, q) && time.Since(t0) < 8*time.Second; round++ {
+		added := false
+		for _, l := range pureLemmas(mod, append(append([]*Term{}, q...), lemmas...)) {
+			if !seen[l] {
+				seen[l] = true
+				lemmas = append(lemmas, l)
+				added = true
+			}
+		}
+		if !added {
+			break
+		}
+		if round == 0 {
+			// refinement rounds run without the witness-hygiene preferences (searching a consistent
+			// subset of them costs ~25 queries per round) and with the sharper instance axioms
+			lemmas = append(lemmas, pureAxiomInstances(q)...)
+		}
+		r, mod = checkModelStage(solver, e, fresh, prefs, append(append([]*Term{}, q...), lemmas...), true, true)
+	}
+	return r, mod
 }
 
-func checkModelStage(solver *Solver, e *Engine, fresh map[*Term]bool, prefs map[*Term]string, q []*Term, withRegexDefs bool) (Result, *Model) {
+func checkModelStage(solver0 *Solver, e *Engine, fresh map[*Term]bool, prefs map[*Term]string, q []*Term, withRegexDefs bool, noPrefSearch ...bool) (Result, *Model) {
+	// without regexp definitions cvc5 answers in a few ms; with them z3 is the robust one
+	solver := solverOrder{solver0, 1}
+	if withRegexDefs {
+		solver.first = 0
+	}
 	q2 := append([]*Term{}, q...)
 	q2 = append(q2, modelConstraintsForStage(e, fresh, q, withRegexDefs)...)
 	// witness hygiene: prefer distinctive values for free atoms when they are consistent
@@ -386,6 +419,9 @@ func checkModelStage(solver *Solver, e *Engine, fresh map[*Term]bool, prefs map[
 		if isJSONNumber(val) {
 			q2 = append(q2, TInRe(v, `(re.++ (re.opt (str.to_re "-")) (re.union (str.to_re "0") (re.++ (re.range "1" "9") (re.* (re.range "0" "9")))) (re.opt (re.++ (str.to_re ".") (re.+ (re.range "0" "9")))))`))
 		}
+	}
+	if len(noPrefSearch) > 0 && noPrefSearch[0] {
+		pq = nil
 	}
 	if len(pq) > 0 {
 		if r, mod := solver.Check(append(append([]*Term{}, q2...), pq...), true); r == Sat && mod != nil {
@@ -503,3 +539,12 @@ func preferredValue(class, name string) (string, bool) {
 	return "", false
 }
 
+
+type solverOrder struct {
+	s     *Solver
+	first int
+}
+
+func (o solverOrder) Check(ts []*Term, wantModel bool) (Result, *Model) {
+	return o.s.CheckOn(o.first, ts, wantModel)
+}
